@@ -15,6 +15,7 @@ import (
 	"math/rand"
 	"os"
 	"os/exec"
+	"regexp"
 	"sort"
 	"strings"
 	"sync"
@@ -183,9 +184,27 @@ func runModel(lines []string) ([]string, error) {
 	return strings.Split(strings.TrimRight(out.String(), "\n"), "\n"), nil
 }
 
+var callsRe = regexp.MustCompile(`calls=\S*`)
+
+// sameOut compares an observation of the implementation with the model's.  Two requests that
+// overlapped in time are emitted in the order in which they took effect; the state between them
+// cannot be observed ("*|": only the result is compared) and the call log of the second covers both
+// ("~|": compared without the call log).
+func sameOut(a, b string) bool {
+	switch {
+	case strings.HasPrefix(a, "*|"):
+		a = strings.TrimPrefix(a, "*|")
+		return strings.SplitN(a, " ; ", 2)[0] == strings.SplitN(b, " ; ", 2)[0]
+	case strings.HasPrefix(a, "~|"):
+		a = strings.TrimPrefix(a, "~|")
+		return callsRe.ReplaceAllString(a, "calls=~") == callsRe.ReplaceAllString(b, "calls=~")
+	}
+	return a == b
+}
+
 func firstDiff(a, b []string) int {
 	for i := range a {
-		if i >= len(b) || a[i] != b[i] {
+		if i >= len(b) || !sameOut(a[i], b[i]) {
 			return i
 		}
 	}
@@ -193,6 +212,16 @@ func firstDiff(a, b []string) int {
 		return len(a)
 	}
 	return -1
+}
+
+// pPartM: pPart that keeps the comparison marker of an overlapped request
+func pPartM(s string) string {
+	for _, m := range []string{"*|", "~|"} {
+		if strings.HasPrefix(s, m) {
+			return m + pPart(strings.TrimPrefix(s, m))
+		}
+	}
+	return pPart(s)
 }
 
 // split an observation into its property-relevant part and the internal part
@@ -312,7 +341,7 @@ func main() {
 			internal := true
 			first := d
 			for i := d; i < len(outs) && i < len(model); i++ {
-				if pPart(outs[i]) != pPart(model[i]) {
+				if !sameOut(pPartM(outs[i]), pPart(model[i])) {
 					internal = false
 					first = i
 					break
